@@ -94,8 +94,14 @@ def run(chk):
             except Unrecognised as e:
                 chk.unk("R1", site, f.loc(stmt), str(e))
                 continue
-            chk.check(fr.length == 8 and fr.origin == "bytearray", "R1", f"{site} | 8 zero-initialised bytes", f.loc(stmt), f"frame is {fr.origin} of {fr.length} bytes")
+            whole_pack = fr.origin == "pack" and fr.length == 8 and not fr.stores and bool(fr.parts) and all(isinstance(p_[0], str) and p_[0] == fr.parts[0][0] for p_ in fr.parts)
+            chk.check(fr.length == 8 and (fr.origin == "bytearray" or whole_pack), "R1", f"{site} | 8 zero-initialised bytes", f.loc(stmt), f"frame is {fr.origin} of {fr.length} bytes")
             seen = {}
+            if whole_pack:
+                # the frame is one struct.pack of all 8 bytes: the same as zeroed bytes with one store over [0, 8)
+                fmt = fr.parts[0][0]
+                chk.check(isinstance(fmt, str) and fmt.startswith("<"), "R2", f"{site} | little-endian [0, 8)", f.loc(stmt), f"format {fmt!r}")
+                seen[(0, 8)] = (fmt, [src(a) for _f, a in fr.parts])
             for st in fr.stores:
                 if st.lo is None or st.hi is None:
                     chk.unk("R1", f"{site} | store `{src(st.stmt)[:40]}`", f.loc(st.stmt), "store position is not constant")
